@@ -21,7 +21,7 @@ for p in props:
             "technique": c.get('technique', "contract-based deductive verification: weakest-precondition VCs generated from the typed Go AST of the functions under contract, discharged by z3/cvc5"),
         })
     else:
-        na.append({"property_id": pid, "reason": src['not_applicable'].get(pid, "no contract pack built yet for this property (nothing is claimed)")})
+        na.append({"property_id": pid, "reason": src['not_applicable'].get(pid, "no contract pack was completed for this property in the time available, so nothing is claimed and nothing is checked (a limit of effort, not a switch of technique; the planned contracts are in DESIGN.md section 4)")})
 m = {
  "version": 1,
  "setup_cmd": "./setup.sh",
